@@ -91,11 +91,38 @@ Theorem C04_mate_in_one_found_partial : forall (pos : Type) (moves : pos -> list
 Proof. exact mate_in_one_partial. Qed.
 Print Assumptions C04_mate_in_one_found_partial.
 
-(** full statement (not proved: needs a completeness model of the control flow; tested by the
-    finder on mate-in-one positions of all kinds at every completed depth) *)
-Definition C04_mate_in_one_found_statement : Prop :=
-  forall (pos : Type) (moves : pos -> list pos) (in_check : pos -> bool),
-    mate_in_one_found_statement pos moves in_check.
+(** ---- completeness for mate in one: control-flow model Search/MateInOneFlow.v ----
+    Modelling assumptions (oracle side, stated in the model's header and checked per traced run by
+    the conformance part of props/c04.py): full strength (every legal root move is searched;
+    no weakPlaySkipMove, no searchmoves), one thread (no helper results, no BUSY), no tablebases,
+    the iteration completed (not stopped), the inCheck flag of the child is MoveGen::givesCheck of
+    the move played, the checkmated position does not occur earlier in the game history (no
+    repetition claim); for the other root moves: any result of the rule system, whose soundness
+    carries the evaluation-range and no-hash-collision hypotheses. *)
+From Texel Require Import Search.MateInOneFlow Search.MateInOneFlowSound.
+
+(** every return site reachable for the node of a checkmated position yields the mated score
+    -(MATE0-(ply+1)) - or, by mate-distance pruning, alpha >= MATE0-ply-1 -, and every table
+    entry of such a position reads back as the mated score at every ply *)
+Theorem C04_mated_node_value :
+  (forall ply a b s, MatedNode ply a b s -> s = mated_score ply \/ (s = a /\ mdp_beta b ply <= a)) /\
+  (forall ply a b s, MatedBody ply a b s -> ply_ok ply -> s = mated_score ply) /\
+  (forall f, MatedTT f -> forall ply, ply_ok ply -> ttGetScore f ply = mated_score ply).
+Proof. exact mated_node_all. Qed.
+Print Assumptions C04_mated_node_value.
+
+(** whenever a root move delivers checkmate, every completed iteration (any depth >= 1, any
+    order of the root moves, any aspiration window of the first move, any re-search steps, any
+    justified results for the other moves) ends with score MATE0-2, printed as "mate 1", and its
+    best move delivers checkmate *)
+Theorem C04_mate_in_one_found : forall (pos : Type) (moves : pos -> list pos) (in_check : pos -> bool)
+    root order alpha0 beta0 bp bs,
+  (forall c, In c (moves root) -> In c order) ->
+  (exists c, In c (moves root) /\ checkmated moves in_check c) ->
+  Iteration moves in_check order alpha0 beta0 (bp, bs) ->
+  bs = MATE0 - 2 /\ mate_of_score bs = Some 1 /\ checkmated moves in_check bp /\ In bp order.
+Proof. exact mate_in_one_found_root. Qed.
+Print Assumptions C04_mate_in_one_found.
 
 (** ---- the certificate checker (extracted to OCaml, run on the traces of hook H3) ---- *)
 From Coq Require Import FMapPositive.
